@@ -206,10 +206,10 @@ def validate(module, files, acts, cfg=None, jobs=JOBS, xmx="2g", timeout=1800, e
         return [f.result() for f in futs]
 
 
-RE_COV = re.compile(r'^<(\w+) line \d+, col \d+ to line \d+, col \d+ of module (\w+)>: (\d+):(\d+)')
+RE_COV = re.compile(r'^<(\w+) line \d+, col \d+ to line \d+, col \d+ of module (\w+)(?: \([^)]*\))?>: (\d+):(\d+)')
 
 
-def model_check(module, cfg, workers=8, xmx="6g", timeout=3600, env=None, coverage=True, extra=()):
+def model_check(module, cfg, workers=8, xmx="6g", timeout=3600, env=None, coverage=True, extra=(), keep_output=False):
     """design-level exhaustive check of a bounded configuration"""
     ex = list(extra)
     if coverage:
@@ -224,11 +224,13 @@ def model_check(module, cfg, workers=8, xmx="6g", timeout=3600, env=None, covera
             res["states"], res["distinct"] = int(m.group(1)), int(m.group(2))
         m = RE_COV.match(line)
         if m:
-            res["actions"][m.group(1)] = res["actions"].get(m.group(1), 0) + int(m.group(3))
+            res["actions"][m.group(1)] = res["actions"].get(m.group(1), 0) + int(m.group(4))
         if line.startswith("Error: Invariant") or line.startswith("Error: Action property") or \
                 line.startswith("Error: Temporal properties were violated") or "is violated" in line and line.startswith("Error:"):
             res["violated"] = line.strip()
     res["ok"] = rc == 0 and "No error has been found" in out
+    if keep_output:
+        res["out"] = out
     if not res["ok"] and res["violated"] is None and rc != 0:
         if "Deadlock reached" in out:
             res["violated"] = "Deadlock reached"
